@@ -272,7 +272,17 @@ func (db *DB) stillBlocked(w *waitErr) bool {
 		var key int64
 		fmt.Sscanf(w.what, "advisory lock %d", &key)
 		l := db.advisory[key]
-		return (l != nil && l.sess == on) || db.advShared[key][on] != nil
+		if (l != nil && l.sess == on) || db.advShared[key][on] != nil {
+			return true
+		}
+		if w.waiter != nil {
+			// the holder is gone: still blocked if somebody else took the lock meanwhile or queues ahead of us
+			if l != nil && l.sess != w.waiter && !l.sess.closed {
+				return true
+			}
+			return db.advAhead(w.waiter, key) != nil
+		}
+		return false
 	}
 	return on.txn != nil && on.txn.state == txActive && on.txn.id == w.txnID()
 }
@@ -298,6 +308,9 @@ func (w *waitErr) txnID() int64 {
 
 func (db *DB) finishStmt(s *Session, worker, kind, sql string, err error) {
 	db.StmtN++
+	if len(s.advWait) > 0 {
+		db.advLeaveQueues(s)
+	}
 	if err != nil {
 		db.recordUnsupported(err, sql)
 	}
